@@ -214,6 +214,9 @@ def gen_comb(streams):
         cfg['cin'] = g.choice(['none', 'none', 'c0', 'c1', 'wire', 'wire'])
         if gen == 'cla_adder':
             cfg['la_unit_len'] = g.choice([None, 1, 2, 3, 4, 5])
+        if g.random() < 0.15:
+            cfg['same'] = True          # the same wire as both operands: x + x (+ cin)
+            widths = widths[:1]
     elif gen == 'carrysave_adder':
         widths = [pick_width(g, small) for _ in range(3)]
         cfg['final'] = g.choice([None] + FINALS)
@@ -269,6 +272,9 @@ def gen_comb(streams):
         # a second unit of the same generator on the very same operand wires, in the same
         # Block (e.g. a Wallace and a Dada multiplier side by side): each must be exact
         twin = dict(cfg)
+        if 'cin' in twin:
+            # e.g. the two speculative sums of a carry-select stage: a + b and a + b + 1
+            twin['cin'] = g.choice([c for c in ['none', 'c0', 'c1', 'wire'] if c != cfg['cin']])
         if 'reducer' in twin and g.random() < 0.7:
             twin['reducer'] = g.choice([r for r in [None] + REDUCERS if r != cfg['reducer']])
         if 'final' in twin and g.random() < 0.3:
@@ -298,7 +304,7 @@ def gen_comb(streams):
 
 def vec_widths(case):
     vw = list(case['widths'])
-    if case['cfg'].get('cin') == 'wire':
+    if case['cfg'].get('cin') == 'wire' or (case.get('twin') or {}).get('cin') == 'wire':
         vw.append(1)
     return vw
 
@@ -498,7 +504,7 @@ def expected_value(case, vec):
         cin = {'none': 0, 'c0': 0, 'c1': 1}.get(cfg['cin'])
         if cin is None:
             cin = vec[n]
-        return x[0] + x[1] + cin
+        return x[0] + x[-1] + cin
     if gen == 'fast_group_adder' and cfg.get('direct') and cfg['direct'].get('shifts'):
         return sum(v << s for v, s in zip(x, cfg['direct']['shifts']))
     if gen in ('carrysave_adder', 'fast_group_adder'):
@@ -552,7 +558,7 @@ def build_comb(pyrtl, case, blk, cfg=None, shared=None):
                     shared['cin'] = akw['cin']
         if cfg.get('la_unit_len') is not None:
             akw['la_unit_len'] = cfg['la_unit_len']
-        return getattr(adders, gen)(xs[0], xs[1], **akw)
+        return getattr(adders, gen)(xs[0], xs[-1], **akw)
     if gen == 'carrysave_adder':
         if 'final' in kw:
             return adders.carrysave_adder(xs[0], xs[1], xs[2], final_adder=kw['final'])
@@ -639,7 +645,8 @@ def run_comb(case, res):
     else:
         vectors = case['vectors']
         res.probes.hit('comb:sampled')
-    names = ['x%d' % i for i in range(len(ws))] + (['cin'] if cfg.get('cin') == 'wire' else [])
+    names = ['x%d' % i for i in range(len(ws))] + \
+        (['cin'] if cfg.get('cin') == 'wire' or (case.get('twin') or {}).get('cin') == 'wire' else [])
     blk = pyrtl.Block()
     try:
         with pyrtl.set_working_block(blk, no_sanity_check=True):
@@ -683,11 +690,12 @@ def run_comb(case, res):
         if val == exp and rw2 is not None:
             got2 = sim.inspect('y2')
             val2 = _to_signed(got2, rw2) if signed else got2
-            if val2 != exp:
+            exp2 = expected_value(dict(case, cfg=case['twin']), vec)
+            if val2 != exp2:
                 res.nontrivial = True
                 return Violation('comb_exact', gen + '.second_unit_on_same_operands_wrong',
                                  {'widths': ws, 'cfg': cfg, 'twin_cfg': case['twin'], 'vector': vec,
-                                  'expected': exp, 'got': val2, 'first_unit': val},
+                                  'expected': exp2, 'got': val2, 'first_unit': val},
                                  tags + ['twin'])
         if val != exp:
             res.nontrivial = True
